@@ -2351,3 +2351,17 @@ def _(E, c):
 def _(E, c):
     # a one-element slice viewing the referenced value (read-only uses: the element is shared by value)
     return RefV(Cell(VecV([E.deref(c.args[0])], 'Vec<_>'), 'from_ref'), ())
+
+
+class RepeatWithIter(Iter):
+    """iter::repeat_with(f): an endless iterator (only usable under take / zip)"""
+    def __init__(self, f):
+        self.f = f
+
+    def next(self, E):
+        return E.call_callable(self.f, [])
+
+
+@model('repeat_with', 'iter::repeat_with')
+def _(E, c):
+    return iter_obj(RepeatWithIter(c.args[0]))
